@@ -273,6 +273,7 @@ func checkC18(P *core.Program, R *core.Report) {
 		}
 	}
 	checkZeroCoins(P, R, fns, &T, used)
+	checkTruncatingSplits(P, R, fns)
 	checkSentinelComparisons(P, R)
 	// R2 regression of the isolations
 	checkIsolatedCall(P, R, "C18-isolated", "x/masterchef/keeper.Keeper.ConvertGasFeesToUsdc", "x/amm/keeper.Keeper.InternalSwapExactAmountIn")
@@ -614,3 +615,66 @@ func stableDesc(ff *core.FuncFacts, v ssa.Value) string {
 }
 
 var sumBlockRe = regexp.MustCompile(`Sum@b-?\d+`)
+
+// checkTruncatingSplits: DecCoins.Sub panics on a negative result.  Where block processing
+// hands out a pot share by share (remaining = remaining.Sub(share)), every share must be
+// computed with truncating operations only (QuoTruncate, MulTruncate, MulDecTruncate …): a
+// rounding-to-nearest quotient or product can make the shares add up to more than the pot
+// and the subtraction panic — outside any recover — halts the chain.
+func checkTruncatingSplits(P *core.Program, R *core.Report, fns []*ssa.Function) {
+	rounding := map[string]bool{"Quo": true, "Mul": true, "MulDec": true, "QuoDec": true, "QuoRoundUp": true, "MulRoundUp": true, "QuoInt": true, "MulInt": true, "Ceil": true, "RoundInt": true, "QuoInt64": true, "MulInt64": true}
+	for _, fn := range fns {
+		if hasRecover(fn) {
+			continue
+		}
+		ff := P.Facts(fn)
+		for _, c := range core.Calls(fn) {
+			sc := c.Common().StaticCallee()
+			if sc == nil || sc.Name() != "Sub" || sc.Signature.Recv() == nil || core.NamedName(sc.Signature.Recv().Type()) != "DecCoins" {
+				continue
+			}
+			// the minuend must be loop-carried (a pot that is being drained)
+			carried := false
+			switch m := ff.Fwd(c.Common().Args[0]).(type) {
+			case *ssa.Phi:
+				carried = true
+			case *ssa.UnOp: // a variable captured by an iterator callback
+				if _, isFree := m.X.(*ssa.FreeVar); isFree {
+					carried = true
+				}
+			}
+			if !carried {
+				continue
+			}
+			bad := ""
+			seen := map[ssa.Value]bool{}
+			var walk func(v ssa.Value, d int)
+			walk = func(v ssa.Value, d int) {
+				v = ff.Fwd(v)
+				if v == nil || seen[v] || d > 12 {
+					return
+				}
+				seen[v] = true
+				call, ok := v.(*ssa.Call)
+				if !ok || call.Common().IsInvoke() || call.Common().StaticCallee() == nil {
+					return
+				}
+				callee := call.Common().StaticCallee()
+				recv := callee.Signature.Recv()
+				if recv == nil || !(core.IsMathType(recv.Type()) || core.NamedName(recv.Type()) == "DecCoins" || core.NamedName(recv.Type()) == "DecCoin") {
+					return
+				}
+				if rounding[callee.Name()] {
+					// dividing/multiplying by the constant one or subtracting is exact; anything else rounds to nearest
+					bad = callee.Name() + " at " + P.Pos(P.InstrPos(call))
+				}
+				for _, a := range call.Common().Args {
+					walk(a, d+1)
+				}
+			}
+			walk(c.Common().Args[1], 0)
+			R.Add("C18-trunc-split", P.Key(fn), "pot.Sub(share): share computed by truncation only", P.Pos(P.InstrPos(c)), bad == "",
+				"a share subtracted from a loop-carried DecCoins pot must be computed with truncating operations, or the shares can exceed the pot and DecCoins.Sub panics. "+bad)
+		}
+	}
+}
